@@ -82,6 +82,19 @@ def leg_t(prop):
             for fu in futs:
                 e, r_, s = fu.result()
                 tot += e; rej += r_; st += s
+        conc = None
+        if prop == "C04":
+            # concurrent pollers + submitter, ordered by the verif hook under Manager.mu
+            nc = 16 if tier == "quick" else 200
+            cres = vlib.go_run(binary, "TestConcurrent", wd, env={"VERIF_HISTORIES": nc, "VERIF_SHARDS": shards}, timeout=3000, tag="concurrent")
+            verdict.add_all(cres["mismatches"])
+            ctot = crej = 0
+            with cf.ThreadPoolExecutor(max_workers=12) as ex:
+                for e, r_, s in ex.map(lambda i: validate_shard(wd, prop, i, verdict), range(shards)):
+                    ctot += e; crej += r_; st += s
+            log("  T: concurrent: %d histories / %d events (%s); TLC validated, %d traces rejected" % (cres["traces"], ctot, json.dumps(cres.get("counts", {})), crej))
+            conc = dict(histories=cres["traces"] - crej, events=ctot, rejected=crej, counts=cres.get("counts", {}))
+            tot += ctot; rej += crej
         log("  T: mode %s: %d histories / %d events on real nodes (%d driver-level findings); TLC validated in %.1fs, %d traces rejected; counts %s" %
             (mode, res["traces"], tot, len(res["mismatches"]), time.time() - t0, rej, json.dumps(res.get("counts", {}))))
         for i in range(shards):
@@ -91,5 +104,5 @@ def leg_t(prop):
                 except OSError:
                     pass
         return dict(traces=res["traces"] - rej, events=tot, rejected=rej, trace_states=st, mode=mode, samples=res["samples"],
-                    driver_counts=res.get("counts", {}), blocks_per_history=[lo, hi])
+                    driver_counts=res.get("counts", {}), blocks_per_history=[lo, hi], concurrent=conc)
     return run
